@@ -43,6 +43,22 @@ def step : List String → String
        | some aop => let r := astep g aop; s!"{if r.2 then "ok" else "fail"} {showGrant r.1}"
        | none => "bad-op")
     | _, _ => "bad-op"
+  | ["sallow2", op, arg, allow, gU, gD] =>
+    match parseGrant gU, parseGrant gD with
+    | some gU, some gD =>
+      let aop : Option AOp :=
+        match op with
+        | "approve" => (match arg.toNat?, parseNats allow with | some n, some al => some (.approve (some n) al) | _, _ => none)
+        | "increase" => arg.toNat?.map .increase
+        | "decrease" => arg.toNat?.map .decrease
+        | "revoke" => some .revoke
+        | _ => none
+      (match aop with
+       | some aop =>
+         let r := astepMany [gU, gD] aop
+         s!"{if r.2 then "ok" else "fail"} {" ".intercalate (r.1.map showGrant)}"
+       | none => "bad-op")
+    | _, _ => "bad-op"
   | ["newval"] => "skip"
   | _ => "bad-op"
 
